@@ -36,6 +36,9 @@ func newNamer() *namer {
 		unique:                  make(map[string]int),
 		keywords:                make(map[string]struct{}),
 		keywordsCaseInsensitive: make(map[string]struct{}),
+		// The writer names its constructor helpers Construct<type> without
+		// asking the namer: keep user names out of that family.
+		reservedPrefixes: []string{"Construct"},
 	}
 
 	// Register HLSL keywords (case-sensitive, matching Rust naga's KeywordSet)
